@@ -5,6 +5,7 @@
 #include <cstdlib>
 #include <cstring>
 #include <pthread.h>
+#include <link.h>
 #include <sys/mman.h>
 #include <unistd.h>
 
@@ -40,9 +41,11 @@ struct Task {
     bool blocked = false;
     uintptr_t blocked_on = 0;
     int in_lib = 0;
-    uint32_t locks = 0; // lockset bitmask
+    uint32_t vc[MAX_TASKS] = {0}; // vector clock (happens-before)
+    unsigned atomic_streak = 0;    // consecutive atomic operations without a plain write (spin loop)
     int prio = 0;
     std::vector<uintptr_t> fstack;
+    std::vector<unsigned char> tls; // this task's image of the executable's thread-local block
 };
 
 static Task g_tasks[MAX_TASKS];
@@ -54,6 +57,7 @@ static Config g_cfg;
 static Result *g_res = nullptr;
 static Rng g_rng(1);
 static uint64_t g_steps = 0;
+static uint64_t g_run_id = 0; // vector clocks held by synchronisation objects are per run
 static uint64_t g_alone_steps = 0;
 static uint64_t g_alone_budget = 0;
 static std::vector<uint64_t> g_cps; // PCT change points (sorted)
@@ -88,16 +92,55 @@ std::vector<Access> footprint_end() {
     return g_fp;
 }
 
+// ------------------------------------------------- thread-local storage per task
+// Fibers share one OS thread, hence one thread-local block.  A library that keeps
+// scratch state in `_Thread_local` objects is correct under real threads; to stay
+// correct here every task gets its own image of the executable's TLS block, swapped
+// in and out at each context switch, and accesses to it are task-private.
+static unsigned char *g_tls_base = nullptr; // start of the executable's TLS block of this thread
+static size_t g_tls_size = 0;
+static std::vector<unsigned char> g_tls_init; // pristine image (as at the start of run())
+static std::vector<unsigned char> g_tls_main; // the harness's own image while tasks run
+
+static int tls_phdr_cb(struct dl_phdr_info *info, size_t, void *) {
+    if (info->dlpi_name && info->dlpi_name[0]) return 0; // main executable only
+    for (int i = 0; i < info->dlpi_phnum; i++)
+        if (info->dlpi_phdr[i].p_type == PT_TLS && info->dlpi_tls_data) {
+            g_tls_base = (unsigned char *)info->dlpi_tls_data;
+            g_tls_size = info->dlpi_phdr[i].p_memsz;
+        }
+    return 1;
+}
+static void tls_discover() {
+    static bool done = false;
+    if (done) return;
+    done = true;
+    dl_iterate_phdr(tls_phdr_cb, nullptr);
+}
+static inline bool in_tls(uintptr_t a) {
+    return g_tls_size && a >= (uintptr_t)g_tls_base && a < (uintptr_t)g_tls_base + g_tls_size;
+}
+static void tls_save(std::vector<unsigned char> &img) {
+    if (g_tls_size) img.assign(g_tls_base, g_tls_base + g_tls_size);
+}
+static void tls_load(const std::vector<unsigned char> &img) {
+    if (g_tls_size && img.size() == g_tls_size) memcpy(g_tls_base, img.data(), g_tls_size);
+}
+
 // ---------------------------------------------------------------- shadow map
+// Per byte: the last write (task, its clock then, pc) and up to two reads that are not
+// ordered with each other.  Two accesses conflict when they come from different tasks,
+// at least one writes, and neither happens-before the other (vector clocks advanced at
+// every release: unlock, once completion, atomic store/RMW; joined at every acquire).
 struct Cell {
     uintptr_t key;   // granule address (addr >> 3), 0 = empty
     uint32_t epoch;
     int8_t wtask[8];
-    uint16_t rmask[8];
-    uint32_t wlocks[8];
-    uint32_t rlocks[8];
+    int8_t rtask[8][2];
+    uint32_t wclk[8];
+    uint32_t rclk[8][2];
     uint32_t wpc[8];
-    uint32_t rpc[8];
+    uint32_t rpc[8][2];
 };
 static const size_t SHADOW_BITS = 16;
 static const size_t SHADOW_SIZE = 1u << SHADOW_BITS;
@@ -116,7 +159,7 @@ static Cell *cell_for(uintptr_t gran, bool create) {
             c.key = gran;
             c.epoch = g_epoch;
             memset(c.wtask, -1, sizeof c.wtask);
-            memset(c.rmask, 0, sizeof c.rmask);
+            memset(c.rtask, -1, sizeof c.rtask);
             return &c;
         }
         if (c.key == gran) return &c;
@@ -151,8 +194,10 @@ static void trace(uintptr_t addr, size_t size, bool write, uintptr_t pc) {
     }
     if (!g_cfg.trace || !g_res) return;
     if (on_own_stack(addr)) return;
+    if (in_tls(addr)) return; // each task has its own image of the thread-local block
     int t = g_cur;
-    uint32_t locks = g_tasks[t].locks;
+    const uint32_t *vc = g_tasks[t].vc;
+    if (write) g_tasks[t].atomic_streak = 0;
     for (size_t i = 0; i < size; i++) {
         uintptr_t a = addr + i;
         Cell *c = cell_for(a >> 3, true);
@@ -161,25 +206,43 @@ static void trace(uintptr_t addr, size_t size, bool write, uintptr_t pc) {
             return;
         }
         unsigned b = (unsigned)(a & 7);
+        int wt = c->wtask[b];
+        bool w_unordered = wt >= 0 && wt != t && c->wclk[b] > vc[wt];
         if (write) {
-            if (c->wtask[b] >= 0 && c->wtask[b] != t && (c->wlocks[b] & locks) == 0)
-                note_conflict(a, c->wtask[b], true, c->wpc[b], t, true, pc);
-            else if ((c->rmask[b] & ~(1u << t)) && (c->rlocks[b] & locks) == 0) {
-                int other = __builtin_ctz(c->rmask[b] & ~(1u << t));
-                note_conflict(a, other, false, c->rpc[b], t, true, pc);
-            }
-            c->wtask[b] = (int8_t)t;
-            c->wlocks[b] = locks;
-            c->wpc[b] = (uint32_t)pc;
-        } else {
-            if (c->wtask[b] >= 0 && c->wtask[b] != t && (c->wlocks[b] & locks) == 0)
-                note_conflict(a, c->wtask[b], true, c->wpc[b], t, false, pc);
-            if (c->rmask[b] == 0)
-                c->rlocks[b] = locks;
+            if (w_unordered)
+                note_conflict(a, wt, true, c->wpc[b], t, true, pc);
             else
-                c->rlocks[b] &= locks;
-            c->rmask[b] |= (uint16_t)(1u << t);
-            c->rpc[b] = (uint32_t)pc;
+                for (int k = 0; k < 2; k++) {
+                    int rt = c->rtask[b][k];
+                    if (rt >= 0 && rt != t && c->rclk[b][k] > vc[rt]) {
+                        note_conflict(a, rt, false, c->rpc[b][k], t, true, pc);
+                        break;
+                    }
+                }
+            c->wtask[b] = (int8_t)t;
+            c->wclk[b] = vc[t];
+            c->wpc[b] = (uint32_t)pc;
+            c->rtask[b][0] = c->rtask[b][1] = -1; // reads before this write are subsumed by it
+        } else {
+            if (w_unordered) note_conflict(a, wt, true, c->wpc[b], t, false, pc);
+            // keep this read: own slot, else a free slot, else a slot whose read
+            // happens-before this one (subsumed), else the older slot
+            int slot = -1;
+            for (int k = 0; k < 2 && slot < 0; k++)
+                if (c->rtask[b][k] == t) slot = k;
+            for (int k = 0; k < 2 && slot < 0; k++)
+                if (c->rtask[b][k] < 0) slot = k;
+            for (int k = 0; k < 2 && slot < 0; k++)
+                if (c->rclk[b][k] <= vc[c->rtask[b][k]]) slot = k;
+            if (slot < 0) {
+                c->rtask[b][0] = c->rtask[b][1];
+                c->rclk[b][0] = c->rclk[b][1];
+                c->rpc[b][0] = c->rpc[b][1];
+                slot = 1;
+            }
+            c->rtask[b][slot] = (int8_t)t;
+            c->rclk[b][slot] = vc[t];
+            c->rpc[b][slot] = (uint32_t)pc;
         }
     }
 }
@@ -194,7 +257,7 @@ static void shadow_clear_range(void *p, size_t n) {
             uintptr_t x = (g << 3) + b;
             if (x >= a && x < e) {
                 c->wtask[b] = -1;
-                c->rmask[b] = 0;
+                c->rtask[b][0] = c->rtask[b][1] = -1;
             }
         }
     }
@@ -231,6 +294,8 @@ static void switch_to(int next, bool at_end) {
     int from = g_cur;
     record_switch(from, next, at_end);
     g_cur = next;
+    if (from >= 0) tls_save(g_tasks[from].tls); else tls_save(g_tls_main);
+    tls_load(g_tasks[next].tls);
     if (from >= 0)
         sim_ctx_switch(&g_tasks[from].sp, g_tasks[next].sp);
     else
@@ -326,6 +391,8 @@ static void task_done_or_blocked() {
         if (any_blocked) g_res->deadlock = true;
         int from = g_cur;
         g_cur = -1;
+        tls_save(g_tasks[from].tls);
+        tls_load(g_tls_main);
         sim_ctx_switch(&g_tasks[from].sp, g_main_sp);
         return;
     }
@@ -353,6 +420,7 @@ Result run(const std::vector<std::function<void()>> &tasks, const Config &cfg) {
     g_bodies = &tasks;
     g_ntasks = (int)std::min<size_t>(tasks.size(), MAX_TASKS);
     g_steps = 0;
+    g_run_id++;
     g_rng.reseed(cfg.seed ^ 0xf1be5);
     g_rp = 0;
     if (!g_shadow) g_shadow = (Cell *)calloc(SHADOW_SIZE, sizeof(Cell));
@@ -363,8 +431,11 @@ Result run(const std::vector<std::function<void()>> &tasks, const Config &cfg) {
     g_shadow_used = 0;
     alloc::on_alloc_hook = shadow_clear_range;
     alloc::on_free_hook = shadow_clear_range;
+    tls_discover();
+    tls_save(g_tls_init); // every task starts from the thread-local state the harness thread has now
     for (int i = 0; i < g_ntasks; i++) {
         Task &t = g_tasks[i];
+        t.tls = g_tls_init;
         if (!g_stacks[i]) {
             g_stacks[i] = (char *)mmap(nullptr, STACK_SIZE + 4096, PROT_READ | PROT_WRITE,
                                        MAP_PRIVATE | MAP_ANONYMOUS | MAP_STACK, -1, 0);
@@ -380,7 +451,9 @@ Result run(const std::vector<std::function<void()>> &tasks, const Config &cfg) {
         }
         t.finished = t.blocked = false;
         t.in_lib = 0;
-        t.locks = 0;
+        memset(t.vc, 0, sizeof t.vc);
+        t.vc[i] = 1;
+        t.atomic_streak = 0;
         t.fstack.clear();
         {
             uintptr_t top = ((uintptr_t)t.stack + 4096 + STACK_SIZE) & ~(uintptr_t)15;
@@ -454,21 +527,62 @@ std::string symbolize(uintptr_t pc) {
     return n ? std::string(line) : std::string("?");
 }
 
-// --------------------------------------------------------- simulated mutexes
-struct MutexState {
-    int owner = -1;
-    int id = 0;
+// ------------------------------------------- simulated synchronisation objects
+// One record per address: mutexes, spin locks, rwlocks, once controls and atomic
+// objects.  Each carries the vector clock released into it.
+struct SyncObj {
+    int owner = -1;   // exclusive holder
+    int readers = 0;  // rwlock read holders
+    int state = 0;    // once: 0 not started, 1 running, 2 done
+    uint64_t run = 0;
+    uint32_t vc[MAX_TASKS] = {0};
 };
-static std::map<uintptr_t, MutexState> g_mutexes;
+static std::map<uintptr_t, SyncObj> g_sync;
 
-static MutexState &mutex_for(void *m) {
-    auto it = g_mutexes.find((uintptr_t)m);
-    if (it == g_mutexes.end()) {
-        MutexState s;
-        s.id = (int)(g_mutexes.size() % 31);
-        it = g_mutexes.emplace((uintptr_t)m, s).first;
+static SyncObj &sync_for(const volatile void *m) {
+    SyncObj &o = g_sync[(uintptr_t)m];
+    if (o.run != g_run_id) {
+        o.run = g_run_id;
+        memset(o.vc, 0, sizeof o.vc);
     }
-    return it->second;
+    return o;
+}
+static void hb_acquire(SyncObj &o) {
+    if (g_cur < 0) return;
+    uint32_t *vc = g_tasks[g_cur].vc;
+    for (int i = 0; i < MAX_TASKS; i++)
+        if (o.vc[i] > vc[i]) vc[i] = o.vc[i];
+}
+static void hb_release(SyncObj &o) {
+    if (g_cur < 0) return;
+    uint32_t *vc = g_tasks[g_cur].vc;
+    for (int i = 0; i < MAX_TASKS; i++)
+        if (vc[i] > o.vc[i]) o.vc[i] = vc[i];
+    vc[g_cur]++;
+}
+static void block_on(const volatile void *m) {
+    g_tasks[g_cur].blocked = true;
+    g_tasks[g_cur].blocked_on = (uintptr_t)m;
+    task_done_or_blocked();
+}
+static void wake_all(const volatile void *m) {
+    for (int i = 0; i < g_ntasks; i++)
+        if (g_tasks[i].blocked && g_tasks[i].blocked_on == (uintptr_t)m) g_tasks[i].blocked = false;
+}
+// A task that only performs atomic operations is spinning (a hand-written lock, a
+// compare-and-swap retry loop): whoever it waits for must get to run, whatever the
+// strategy's priorities say.
+static void spin_relief() {
+    Task &t = g_tasks[g_cur];
+    if (++t.atomic_streak < 256 || g_cfg.strategy == REPLAY) return;
+    t.atomic_streak = 0;
+    std::vector<int> r = runnable();
+    if (r.size() < 2) return;
+    if (g_cfg.strategy == PCT) t.prio = g_low_prio--;
+    int next;
+    do next = r[g_rng.below(r.size())];
+    while (next == g_cur);
+    switch_to(next, false);
 }
 
 } // namespace fiber
@@ -558,50 +672,65 @@ static inline void guarded_yield() {
     yield_point();
     sim_atomic_depth = 0;
 }
+// An atomic operation of a task: a yield point, then the happens-before edges (every
+// atomic load acquires what atomic stores to the same object released; weaker memory
+// orders are treated alike, which can only add edges, never a false conflict).
+static inline void atomic_point(const volatile void *a, bool acq, bool rel) {
+    if (sim_atomic_depth) return;
+    sim_atomic_depth = 1;
+    yield_point();
+    if (g_cur >= 0) {
+        spin_relief();
+        SyncObj &o = sync_for(a);
+        if (acq) hb_acquire(o);
+        if (rel) hb_release(o);
+    }
+    sim_atomic_depth = 0;
+}
 // atomics: performed for real, a yield point, never a plain-access conflict
 #define SIM_ATOMIC(bits, T)                                                                        \
     T __tsan_atomic##bits##_load(const volatile T *a, int) {                                       \
-        guarded_yield();                                                                             \
+        atomic_point((const volatile void *)a, true, false);                                                                             \
         return __atomic_load_n(a, __ATOMIC_SEQ_CST);                                               \
     }                                                                                              \
     void __tsan_atomic##bits##_store(volatile T *a, T v, int) {                                    \
-        guarded_yield();                                                                             \
+        atomic_point((const volatile void *)a, false, true);                                                                             \
         __atomic_store_n(a, v, __ATOMIC_SEQ_CST);                                                  \
     }                                                                                              \
     T __tsan_atomic##bits##_exchange(volatile T *a, T v, int) {                                    \
-        guarded_yield();                                                                             \
+        atomic_point((const volatile void *)a, true, true);                                                                             \
         return __atomic_exchange_n(a, v, __ATOMIC_SEQ_CST);                                        \
     }                                                                                              \
     T __tsan_atomic##bits##_fetch_add(volatile T *a, T v, int) {                                   \
-        guarded_yield();                                                                             \
+        atomic_point((const volatile void *)a, true, true);                                                                             \
         return __atomic_fetch_add(a, v, __ATOMIC_SEQ_CST);                                         \
     }                                                                                              \
     T __tsan_atomic##bits##_fetch_sub(volatile T *a, T v, int) {                                   \
-        guarded_yield();                                                                             \
+        atomic_point((const volatile void *)a, true, true);                                                                             \
         return __atomic_fetch_sub(a, v, __ATOMIC_SEQ_CST);                                         \
     }                                                                                              \
     T __tsan_atomic##bits##_fetch_and(volatile T *a, T v, int) {                                   \
-        guarded_yield();                                                                             \
+        atomic_point((const volatile void *)a, true, true);                                                                             \
         return __atomic_fetch_and(a, v, __ATOMIC_SEQ_CST);                                         \
     }                                                                                              \
     T __tsan_atomic##bits##_fetch_or(volatile T *a, T v, int) {                                    \
-        guarded_yield();                                                                             \
+        atomic_point((const volatile void *)a, true, true);                                                                             \
         return __atomic_fetch_or(a, v, __ATOMIC_SEQ_CST);                                          \
     }                                                                                              \
     T __tsan_atomic##bits##_fetch_xor(volatile T *a, T v, int) {                                   \
-        guarded_yield();                                                                             \
+        atomic_point((const volatile void *)a, true, true);                                                                             \
         return __atomic_fetch_xor(a, v, __ATOMIC_SEQ_CST);                                         \
     }                                                                                              \
     int __tsan_atomic##bits##_compare_exchange_strong(volatile T *a, T *c, T v, int, int) {        \
-        guarded_yield();                                                                             \
+        atomic_point((const volatile void *)a, true, true);                                                                             \
         return __atomic_compare_exchange_n(a, c, v, 0, __ATOMIC_SEQ_CST, __ATOMIC_SEQ_CST);        \
     }                                                                                              \
     int __tsan_atomic##bits##_compare_exchange_weak(volatile T *a, T *c, T v, int, int) {          \
-        guarded_yield();                                                                             \
+        atomic_point((const volatile void *)a, true, true);                                                                             \
         return __atomic_compare_exchange_n(a, c, v, 0, __ATOMIC_SEQ_CST, __ATOMIC_SEQ_CST);        \
     }                                                                                              \
     T __tsan_atomic##bits##_compare_exchange_val(volatile T *a, T c, T v, int, int) {              \
-        guarded_yield();                                                                             \
+        atomic_point((const volatile void *)a, true, true);                                                                             \
         __atomic_compare_exchange_n(a, &c, v, 0, __ATOMIC_SEQ_CST, __ATOMIC_SEQ_CST);              \
         return c;                                                                                  \
     }
@@ -680,55 +809,105 @@ void __wrap_qsort(void *base, size_t n, size_t sz, int (*cmp)(const void *, cons
     __real_qsort(base, n, sz, cmp);
 }
 
-// ---- simulated mutexes: park/wake, lockset for the conflict detector -------
-int __real_pthread_mutex_lock(pthread_mutex_t *);
-int __real_pthread_mutex_unlock(pthread_mutex_t *);
-int __real_pthread_mutex_trylock(pthread_mutex_t *);
+// ---- simulated locks and once controls: park/wake, happens-before edges ----
 // The wrappers are simulator code: they run with sim_atomic_depth set, so that their
-// own bookkeeping (std::map, std::vector) is neither traced as a task access nor a
-// yield point; the yield points they contain are explicit.
-int __wrap_pthread_mutex_lock(pthread_mutex_t *m) {
-    if (g_cur < 0 || sim_atomic_depth) return __real_pthread_mutex_lock(m);
+// own bookkeeping (std::map) is neither traced as a task access nor a yield point; the
+// yield points they contain are explicit.  Outside run() there is one flow of control:
+// nothing can block, and the objects' own words are never touched (the real functions
+// are not called at all, so a control word set by the solo pass cannot disagree with
+// the simulated state).
+static int sim_lock(const volatile void *m, bool try_only, bool shared) {
+    if (sim_atomic_depth) return 0;
     sim_atomic_depth = 1;
-    yield_point();
-    MutexState &s = mutex_for(m);
-    while (s.owner >= 0 && s.owner != g_cur) {
-        g_tasks[g_cur].blocked = true;
-        g_tasks[g_cur].blocked_on = (uintptr_t)m;
-        task_done_or_blocked();
+    if (g_cur >= 0) yield_point();
+    SyncObj *o = &sync_for(m);
+    int rc = 0;
+    for (;;) {
+        bool busy = shared ? (o->owner >= 0 && o->owner != g_cur) : ((o->owner >= 0 && o->owner != g_cur) || o->readers > 0);
+        if (!busy) break;
+        if (try_only || g_cur < 0) {
+            rc = 16; // EBUSY
+            break;
+        }
+        block_on(m);
         sim_atomic_depth = 1;
+        o = &sync_for(m);
         if (g_res && g_res->deadlock) break;
     }
-    s.owner = g_cur;
-    g_tasks[g_cur].locks |= 1u << s.id;
-    sim_atomic_depth = 0;
-    return 0;
-}
-int __wrap_pthread_mutex_trylock(pthread_mutex_t *m) {
-    if (g_cur < 0 || sim_atomic_depth) return __real_pthread_mutex_trylock(m);
-    sim_atomic_depth = 1;
-    yield_point();
-    MutexState &s = mutex_for(m);
-    int rc = 0;
-    if (s.owner >= 0 && s.owner != g_cur)
-        rc = 16; // EBUSY
-    else {
-        s.owner = g_cur;
-        g_tasks[g_cur].locks |= 1u << s.id;
+    if (rc == 0) {
+        if (shared)
+            o->readers++;
+        else
+            o->owner = g_cur >= 0 ? g_cur : 99;
+        hb_acquire(*o);
     }
     sim_atomic_depth = 0;
     return rc;
 }
-int __wrap_pthread_mutex_unlock(pthread_mutex_t *m) {
-    if (g_cur < 0 || sim_atomic_depth) return __real_pthread_mutex_unlock(m);
+static int sim_unlock(const volatile void *m) {
+    if (sim_atomic_depth) return 0;
     sim_atomic_depth = 1;
-    MutexState &s = mutex_for(m);
-    s.owner = -1;
-    g_tasks[g_cur].locks &= ~(1u << s.id);
-    for (int i = 0; i < g_ntasks; i++)
-        if (g_tasks[i].blocked && g_tasks[i].blocked_on == (uintptr_t)m) g_tasks[i].blocked = false;
-    yield_point();
+    SyncObj &o = sync_for(m);
+    if (o.owner >= 0)
+        o.owner = -1;
+    else if (o.readers > 0)
+        o.readers--;
+    hb_release(o);
+    wake_all(m);
+    if (g_cur >= 0) yield_point();
     sim_atomic_depth = 0;
     return 0;
 }
+static void sim_once(const volatile void *ctl, void (*fn)(void)) {
+    if (sim_atomic_depth) {
+        // called from simulator code: never the library's controls
+        fn();
+        return;
+    }
+    sim_atomic_depth = 1;
+    if (g_cur >= 0) yield_point();
+    SyncObj *o = &g_sync[(uintptr_t)ctl]; // state outlives runs; the clock does not
+    while (o->state == 1 && g_cur >= 0 && o->owner != g_cur) {
+        block_on(ctl);
+        sim_atomic_depth = 1;
+        o = &g_sync[(uintptr_t)ctl];
+        if (g_res && g_res->deadlock) break;
+    }
+    if (o->state == 0) {
+        o->state = 1;
+        o->owner = g_cur >= 0 ? g_cur : 99;
+        sim_atomic_depth = 0;
+        fn(); // library code: traced, preemptible
+        sim_atomic_depth = 1;
+        o = &g_sync[(uintptr_t)ctl];
+        o->state = 2;
+        o->owner = -1;
+        hb_release(sync_for(ctl));
+        wake_all(ctl);
+    } else if (o->state == 2) {
+        hb_acquire(sync_for(ctl));
+    }
+    sim_atomic_depth = 0;
+}
+
+int __wrap_pthread_mutex_lock(pthread_mutex_t *m) { return sim_lock(m, false, false); }
+int __wrap_pthread_mutex_trylock(pthread_mutex_t *m) { return sim_lock(m, true, false); }
+int __wrap_pthread_mutex_unlock(pthread_mutex_t *m) { return sim_unlock(m); }
+int __wrap_pthread_spin_lock(pthread_spinlock_t *m) { return sim_lock(m, false, false); }
+int __wrap_pthread_spin_trylock(pthread_spinlock_t *m) { return sim_lock(m, true, false); }
+int __wrap_pthread_spin_unlock(pthread_spinlock_t *m) { return sim_unlock(m); }
+int __wrap_pthread_rwlock_rdlock(pthread_rwlock_t *m) { return sim_lock(m, false, true); }
+int __wrap_pthread_rwlock_tryrdlock(pthread_rwlock_t *m) { return sim_lock(m, true, true); }
+int __wrap_pthread_rwlock_wrlock(pthread_rwlock_t *m) { return sim_lock(m, false, false); }
+int __wrap_pthread_rwlock_trywrlock(pthread_rwlock_t *m) { return sim_lock(m, true, false); }
+int __wrap_pthread_rwlock_unlock(pthread_rwlock_t *m) { return sim_unlock(m); }
+int __wrap_pthread_once(pthread_once_t *c, void (*fn)(void)) {
+    sim_once(c, fn);
+    return 0;
+}
+// C11 <threads.h>: thrd_success = 0, thrd_busy = 1
+int __wrap_mtx_lock(void *m) { return sim_lock(m, false, false); }
+int __wrap_mtx_trylock(void *m) { return sim_lock(m, true, false) ? 1 : 0; }
+int __wrap_mtx_unlock(void *m) { return sim_unlock(m); }
+void __wrap_call_once(void *c, void (*fn)(void)) { sim_once(c, fn); }
 }
